@@ -182,11 +182,11 @@ Definition effect_implies_authorized_statement : Prop :=
   forall ids r c e i w, ids <> [] -> route_match r = Some i ->
     takes_effect ids r c e i = Some w -> effect_authorized_spec ids r c e i = true.
 
-(* PARTIAL: outside the two narrowed trigger sets *)
-Theorem effect_partial : forall ids r c e i w,
+(* outside the narrowed trigger sets of findings 0 and 1: the route's action on the URL's bucket *)
+Lemma effect_partial0 : forall ids r c e i w,
   ids <> [] -> route_match r = Some i -> takes_effect ids r c e i = Some w ->
   trigger0 ids r c i = false -> trigger1 ids r e i = false ->
-  effect_authorized_spec ids r c e i = true.
+  effect_authorized_spec0 ids r c e i = true.
 Proof.
   intros ids r c e i w Hne Hm H H0 H1.
   destruct (trigger r) eqn:Ht.
@@ -198,28 +198,94 @@ Proof.
         pose proof (route_match_method r _ _ Hm idx_put_object) as Hmeth. simpl in Hmeth.
         destruct (bypass_cases r Ht) as [Hty|Hty]; [|exfalso; eapply put_not_post_policy; eauto].
         destruct (streaming_put_needs_seed ids r c e PUT_OBJECT_IDX w Hne Hty (or_introl eq_refl) H) as [Hs _].
-        unfold effect_authorized_spec. rewrite idx_put_object, Hty, Hs.
+        unfold effect_authorized_spec0. rewrite idx_put_object, Hty, Hs.
         apply orb_true_iff. left. apply orb_true_iff. right. reflexivity.
       * (* PostPolicy *)
         pose proof (route_match_method r _ _ Hm idx_post_policy) as Hmeth. simpl in Hmeth.
         destruct (bypass_cases r Ht) as [Hty|Hty]; [exfalso; eapply post_not_streaming; eauto|].
         destruct (post_policy_needs_signature ids r c e w H) as [id [_ Hp]].
         unfold trigger1 in H1. rewrite Hty, Hp in H1. simpl in H1. apply negb_false_iff in H1.
-        unfold effect_authorized_spec. rewrite idx_post_policy, Hty. unfold policy_spec. rewrite Hp, H1.
+        unfold effect_authorized_spec0. rewrite idx_post_policy, Hty. unfold policy_spec. rewrite Hp, H1.
         apply orb_true_iff. right. reflexivity.
     + apply negb_false_iff in H0. apply andb_true_iff in H0. destruct H0 as [Hi Hs].
       apply N.eqb_eq in Hi. subst i.
       pose proof (route_match_method r _ _ Hm idx_put_object_part) as Hmeth. simpl in Hmeth.
       destruct (bypass_cases r Ht) as [Hty|Hty]; [|exfalso; eapply put_not_post_policy; eauto].
-      unfold effect_authorized_spec. rewrite idx_put_object_part, Hty, Hs.
+      unfold effect_authorized_spec0. rewrite idx_put_object_part, Hty, Hs.
       apply orb_true_iff. left. apply orb_true_iff. right. reflexivity.
   - (* every other type: Auth itself authorises *)
     unfold takes_effect in H. destruct (route_decision ids r c i) as [w0|] eqn:Hd; [|discriminate].
     pose proof (every_route_partial ids r c i w0 Hne Ht Hm Hd) as Ha.
-    unfold effect_authorized_spec. destruct (nth_error route_table (N.to_nat i)) as [rt|].
+    unfold effect_authorized_spec0. destruct (nth_error route_table (N.to_nat i)) as [rt|].
     + apply authorized_spec_iff in Ha. rewrite Ha. reflexivity.
     + apply authenticated_spec_iff in Ha. exact Ha.
 Qed.
+
+(* ---------- copy routes: the source bucket (finding 3) ---------- *)
+Lemma copy_reads_source_route : forall r e i sb,
+  copy_reads_source r e i = Some sb -> i = COPY_OBJECT_IDX \/ i = COPY_OBJECT_PART_IDX.
+Proof.
+  intros r e i sb H. unfold copy_reads_source in H.
+  destruct (path_to_bucket_and_object (copy_source_path r)) as [b o].
+  destruct (N.eqb_spec i COPY_OBJECT_IDX) as [E|E]; [left; exact E|].
+  destruct (N.eqb_spec i COPY_OBJECT_PART_IDX) as [E2|E2]; [right; exact E2|]. discriminate.
+Qed.
+
+Lemma bypass_not_authorized : forall ids t c action bucket,
+  bypass_type t = true -> authorized_spec ids t c action bucket = false.
+Proof. intros ids t c action bucket H. destruct t; try discriminate; reflexivity. Qed.
+
+(* on a copy route the first half of the right-hand side is Write on the destination *)
+Lemma spec0_copy_route : forall ids r c e i,
+  i = COPY_OBJECT_IDX \/ i = COPY_OBJECT_PART_IDX ->
+  effect_authorized_spec0 ids r c e i = authorized_spec ids (get_request_auth_type r) c ACTION_WRITE (rq_bucket r).
+Proof.
+  intros ids r c e i [Hi|Hi]; subst i; unfold effect_authorized_spec0; simpl;
+  rewrite !andb_false_r, !orb_false_r; reflexivity.
+Qed.
+
+(* PARTIAL: outside the three narrowed trigger sets *)
+Theorem effect_partial : forall ids r c e i w,
+  ids <> [] -> route_match r = Some i -> takes_effect ids r c e i = Some w ->
+  trigger0 ids r c i = false -> trigger1 ids r e i = false -> trigger3 ids r c e i = false ->
+  effect_authorized_spec ids r c e i = true.
+Proof.
+  intros ids r c e i w Hne Hm H H0 H1 H3.
+  pose proof (effect_partial0 ids r c e i w Hne Hm H H0 H1) as Hs0.
+  unfold effect_authorized_spec. rewrite Hs0. simpl.
+  unfold source_read_spec. unfold trigger3 in H3.
+  destruct (copy_reads_source r e i) as [sb|] eqn:Hc; [|reflexivity].
+  pose proof (copy_reads_source_route r e i sb Hc) as Hi.
+  rewrite (spec0_copy_route ids r c e i Hi) in Hs0.
+  destruct (bypass_type (get_request_auth_type r)) eqn:Hb.
+  - rewrite bypass_not_authorized in Hs0 by exact Hb. discriminate.
+  - rewrite Hs0 in H3. simpl in H3. apply negb_false_iff in H3. exact H3.
+Qed.
+
+(* the source bucket plays no part in what Auth and the copy handlers decide: with the same
+   destination authorisation a copy goes on whatever bucket the source names *)
+Theorem copy_ignores_source_rights : forall ids r c e i w,
+  i = COPY_OBJECT_IDX \/ i = COPY_OBJECT_PART_IDX ->
+  takes_effect ids r c e i = Some w <-> route_decision ids r c i = Run w.
+Proof.
+  intros ids r c e i w Hi. unfold takes_effect.
+  destruct (route_decision ids r c i) as [w0|err0].
+  - assert (Hg : handler_gate ids r c e i w0 = GPass w0) by (destruct Hi; subst i; reflexivity).
+    rewrite Hg. split; intros E; inversion E; reflexivity.
+  - split; discriminate.
+Qed.
+
+(* finding 3: writer1 (Write:b1 only) copies b2/src into b1 with an ordinary V4 header signature *)
+Definition witness_ids3 : list identity :=
+  [ {| id_name := "admin"; id_creds := [("AKADMIN", "sk-admin")]; id_actions := [ACTION_ADMIN] |};
+    {| id_name := "writer1"; id_creds := [("AKWR1", "sk-wr1")]; id_actions := ["Write:b1"] |} ].
+Definition witness_copy : request :=
+  {| rq_method := "PUT"; rq_bucket := "b1"; rq_object := "o"; rq_query := [];
+     rq_authz := Some "AWS4-HMAC-SHA256 Credent"; rq_sha256 := ""; rq_ctype := ""; rq_copysrc := "b2/src" |}.
+Definition witness_copy_part : request :=
+  {| rq_method := "PUT"; rq_bucket := "b1"; rq_object := "o"; rq_query := [("partNumber", Some "1"); ("uploadId", Some "u1")];
+     rq_authz := Some "AWS4-HMAC-SHA256 Credent"; rq_sha256 := ""; rq_ctype := ""; rq_copysrc := "b2%2Fsrc" |}.
+Definition wr1_claim : claim := {| cl_ak := "AKWR1"; cl_secret := "sk-wr1"; cl_damage := Intact |}.
 
 (* finding 0 (narrowed): an unsigned streaming-typed PUT /b1 reaches PutBucketHandler;
    an unsigned streaming-typed part upload gets its upload looked up in the filer first *)
@@ -255,6 +321,51 @@ Proof.
   split; [vm_compute; reflexivity|]. split.
   - eexists. split; [vm_compute; reflexivity|]. split; vm_compute; reflexivity.
   - vm_compute. auto.
+Qed.
+
+Lemma effect_refuted_3 :
+  route_match witness_copy = Some COPY_OBJECT_IDX /\
+  (exists id, takes_effect witness_ids3 witness_copy wr1_claim env0 COPY_OBJECT_IDX = Some (Some id) /\
+              id_name id = "writer1" /\ can_do (id_actions id) ACTION_READ "b2" = false) /\
+  copy_reads_source witness_copy env0 COPY_OBJECT_IDX = Some "b2" /\
+  effect_authorized_spec0 witness_ids3 witness_copy wr1_claim env0 COPY_OBJECT_IDX = true /\
+  effect_authorized_spec witness_ids3 witness_copy wr1_claim env0 COPY_OBJECT_IDX = false /\
+  trigger0 witness_ids3 witness_copy wr1_claim COPY_OBJECT_IDX = false /\
+  trigger1 witness_ids3 witness_copy env0 COPY_OBJECT_IDX = false /\
+  trigger3 witness_ids3 witness_copy wr1_claim env0 COPY_OBJECT_IDX = true /\
+  route_match witness_copy_part = Some COPY_OBJECT_PART_IDX /\
+  copy_reads_source witness_copy_part env0 COPY_OBJECT_PART_IDX = Some "b2" /\
+  (exists id, takes_effect witness_ids3 witness_copy_part wr1_claim env0 COPY_OBJECT_PART_IDX = Some (Some id) /\ id_name id = "writer1") /\
+  effect_authorized_spec witness_ids3 witness_copy_part wr1_claim env0 COPY_OBJECT_PART_IDX = false /\
+  trigger3 witness_ids3 witness_copy_part wr1_claim env0 COPY_OBJECT_PART_IDX = true.
+Proof.
+  split; [vm_compute; reflexivity|]. split.
+  { eexists. split; [vm_compute; reflexivity|]. split; vm_compute; reflexivity. }
+  repeat (split; [vm_compute; reflexivity|]). split.
+  { eexists. split; vm_compute; reflexivity. }
+  split; vm_compute; reflexivity.
+Qed.
+
+(* non-vacuity of the trigger3 hypothesis: the same copy by an identity that may also Read b2 is
+   outside the trigger set and authorised; a copy inside one bucket needs Read on that bucket *)
+Definition ex_ids3 : list identity :=
+  [ {| id_name := "rw"; id_creds := [("AKRW", "sk-rw")]; id_actions := ["Write:b1"; "Read:b2"] |};
+    {| id_name := "writer1"; id_creds := [("AKWR1", "sk-wr1")]; id_actions := ["Write:b1"] |} ].
+Definition rw_claim : claim := {| cl_ak := "AKRW"; cl_secret := "sk-rw"; cl_damage := Intact |}.
+
+Lemma copy_example :
+  trigger3 ex_ids3 witness_copy rw_claim env0 COPY_OBJECT_IDX = false /\
+  (exists id, takes_effect ex_ids3 witness_copy rw_claim env0 COPY_OBJECT_IDX = Some (Some id) /\ id_name id = "rw") /\
+  effect_authorized_spec ex_ids3 witness_copy rw_claim env0 COPY_OBJECT_IDX = true /\
+  trigger3 ex_ids3 witness_copy wr1_claim env0 COPY_OBJECT_IDX = true /\
+  copy_reads_source {| rq_method := "PUT"; rq_bucket := "b1"; rq_object := "o"; rq_query := [];
+                       rq_authz := None; rq_sha256 := ""; rq_ctype := ""; rq_copysrc := "/b1/o" |} env0 COPY_OBJECT_IDX = None /\
+  copy_reads_source {| rq_method := "PUT"; rq_bucket := "b1"; rq_object := "o"; rq_query := [];
+                       rq_authz := None; rq_sha256 := ""; rq_ctype := ""; rq_copysrc := "b1/other" |} env0 COPY_OBJECT_IDX = Some "b1".
+Proof.
+  split; [vm_compute; reflexivity|]. split.
+  { eexists. split; vm_compute; reflexivity. }
+  repeat split; vm_compute; reflexivity.
 Qed.
 
 Lemma effect_statement_false : ~ effect_implies_authorized_statement.
